@@ -50,6 +50,22 @@ class _TJson(TUn):
         if isinstance(v, VNone):
             t = f.none
             return _inst(t, lambda: z3.And(z3.Not(f.truthy(t)), z3.Not(f.is_dict(t))))
+        if type(v).__name__ == "VDictRec" and getattr(v, "mt", None) is None and all(isinstance(k, str) for k in v.fields):
+            # a python-level dict literal with constant string keys ({} in particular): build the map value
+            vals = {}
+            for k, x in v.fields.items():
+                e = self.coerce_in(x)
+                if e is None:
+                    return None
+                vals[k] = e
+            dom = z3.K(z3.StringSort(), z3.BoolVal(False))
+            val = z3.K(z3.StringSort(), f.none)
+            for k, e in vals.items():
+                dom = z3.Store(dom, z3.StringVal(k), z3.BoolVal(True))
+                val = z3.Store(val, z3.StringVal(k), e)
+            m = DICT_T().dt.mk(dom, val, z3.IntVal(len(vals)))
+            t = f.of_dict(m)
+            return _inst(t, lambda: z3.And(f.is_dict(t), f.dict_of(t) == m, f.truthy(t) == z3.BoolVal(len(vals) > 0)))
         if isinstance(v, VMap) and v.kt == TStr and v.order is None:
             m = unwrap(as_json_map(v), DICT_T())
             t = f.of_dict(m)
